@@ -645,10 +645,9 @@ def run(tier, is_known):
         # depth 24 is more than the longest shortest path to any state under this menu (the frontier empties at 13-17).
         # Expected cost (CPU-s): computer/server ~350, switch ~150, wireless ~300, router ~1500, firewall ~1800; the wall
         # allowance is shared in these proportions and what a harness does not use is passed on (a cap is reported).
-        weight = {"computer": 1.5, "server": 1.5, "switch": 0.8, "router": 6.0, "firewall": 7.0, "wireless-router": 1.5}
-        plan = [(k, ALL_PAIRS, 24, 600000, weight[k]) for k in KINDS]
-        plan.append(("computer", ALL_PAIRS, 24, 200000, 0.2, "api"))
-        deadline = t0 + 1560.0
+        weight = {"computer": 1.5, "server": 1.5, "switch": 0.8, "wireless-router": 1.5, "router": 7.0, "firewall": 7.0}
+        plan = [("computer", ALL_PAIRS, 24, 200000, 0.2, "api")] + [(k, ALL_PAIRS, 24, 600000, w) for k, w in weight.items()]
+        deadline = t0 + 1560.0  # cheap harnesses first: what they leave is passed on to the routers
     else:
         # bounded by depth (about 420 CPU-s in all); the time budgets are only a safety net on an overloaded machine
         plan = [(k, pairs, d, 60000, 1.0) for k, pairs, d in QUICK_PLAN]
@@ -679,11 +678,11 @@ def run(tier, is_known):
     for item in plan:
         kind, pairs, depth, budget, w = item[:5]
         mode = item[5] if len(item) > 5 else "req"
-        # two thirds of this type's share for the strict pass, the rest (plus what is left over) for the pass beneath
+        # most of this type's share for the strict pass, the rest (plus what is left over) for the pass beneath
         share = 120.0 if deadline is None else max(20.0, (deadline - time.time()) * w / weight_left)
         weight_left -= w
         t1 = time.time()
-        tb = share if deadline is None else share * 0.67
+        tb = share if deadline is None else share * 0.72
         r = one(PowerAdapter(kind, pairs, mode=mode), depth, budget, tb)
         viols += r.violations
         tb = share if deadline is None else max(15.0, share - (time.time() - t1))
